@@ -13,6 +13,8 @@ import vlib  # noqa: E402
 REGISTRY = {
     "C20": ("checks_ring", "check_c20"),
     "C01": ("checks_core", "check_c01"),
+    "C02": ("checks_core", "check_c02"),
+    "C03": ("checks_core", "check_c03"),
     "C04": ("checks_core", "check_c04"),
     "C12": ("checks_core", "check_c12"),
     "C18": ("checks_core", "check_c18"),
